@@ -152,7 +152,7 @@ def run(check):
     check.rule = ("generated workflow programs (all shapes of vlib.gen incl. fan-in up to 45 producers) x outcome vectors "
                   "(success/error/alt/crash/drop/deploy failure/never-ending) x optional random multi-site delay plans; plus (a) outputs / step inputs that cannot be "
                   "evaluated at run time next to never-ending steps and (b) 'late waiter' programs whose remaining outputs hang on a stage of a step that can never "
-                  "deploy/start and whose wait announcement is forced to be the last event of the run; "
+                  "deploy/start and whose wait announcement is forced to be the last event of the run; (c) steps stopped while running that are slow to hand in their result, closure timeouts 0 / 30 ms; (d) never-ending programs aborted by the caller at plugin-boundary events (must return, with a declared output or an error); "
                   "executed through FromYAML->Prepare->Execute in child processes; a case is non-trivial if at least one step "
                   "fails or never ends or >=2 producers feed one consumer; distinct = distinct (shape, outcome vector, result)")
     check.assumptions = ["hang oracle: Go runtime deadlock report in a timer-free child (DESIGN 4.3)",
@@ -200,6 +200,42 @@ def run(check):
         check.sample({"case": cid, "shape": g.get("shape"), "outcome": oc, "result": {"out_id": run.get("out_id"), "err_type": run.get("err_type")},
                       "events": len(res.get("events") or [])})
 
+    # (c) steps that are stopped (stop_if) while they run and are slow to hand in their result - or never do - with closure
+    # timeouts of 0 / 30 ms, the results awaited through wait-optional members; and (d) runs aborted by the caller while a step
+    # never ends: the steps end by being closed, the run must return, with a declared output or an error
+    from ..model import Opt
+    from .. import cancelfam
+    closing = []
+    for j in range(check.pick(60, 400)):
+        rng = random.Random(derive_seed(check.seed, "c01-closed", j))
+        if j % 2 == 0:
+            k = rng.choice([1, 3, 8])
+            S = gen.plugin_step("S", Expr(In("tag")))
+            steps, outs, scripts_over = [S], {"tag": Expr(In("tag"))}, {}
+            on_cancel = rng.choice(["error", "error", "ignore", "success"])
+            timeout = rng.choice([0, 0, 30])
+            for q in range(k):
+                w = gen.plugin_step("w%d" % q, Expr(In("tag")), stop_if=Expr(Ref("S", "outputs", "success", "tag")))
+                w.fields["closure_wait_timeout"] = timeout
+                steps.append(w)
+                outs["e%d" % q] = Opt(Ref("w%d" % q, "outputs", "error", "reason"), True)
+                outs["k%d" % q] = Opt(Ref("w%d" % q, "crashed", "error", "output"), True)
+                outs["s%d" % q] = Opt(Ref("w%d" % q, "outputs", "success", "tag"), True)
+            rng.shuffle(steps)
+            prog = Program(steps, {"report": outs}, gen.BASE_INPUT)
+            scripts = gen.make_scripts(steps, {})
+            for q in range(k):
+                scripts["w%d" % q]["exec"] = {"outcome": "hang", "on_cancel": on_cancel}
+            scripts["S"]["exec"] = {"outcome": "success", "gate": "started"}
+            shape = "steps stopped while running (k=%d, on cancel: %s, closure timeout %d ms)" % (k, on_cancel, timeout)
+            trig = [{"kind": "exec-start", "src": "", "nth": k + 1, "action": "open:started"}]
+        else:
+            prog, scripts, name = cancelfam.NEVER_ENDING[(j // 2) % len(cancelfam.NEVER_ENDING)](rng)
+            evs, _sem = cancelfam.certain_events(prog, scripts, cancelfam.base_input(rng))
+            kind, src, nth = evs[rng.randrange(len(evs))]
+            shape = "%s aborted by the caller at %s:%s#%d" % (name, kind, src, nth)
+            trig = [{"kind": kind, "src": src, "nth": nth, "action": "cancel:0"}]
+        closing.append(({"id": "c01-z%04d" % j, "files": prog.files(), "scripts": scripts, "runs": [{"input": cancelfam.base_input(random.Random(j))}], "triggers": trig, "no_events": True}, shape))
     with harness.Runner() as rn:
 
         if not rn.hang_oracle_works():
@@ -207,6 +243,28 @@ def run(check):
             check.fail_broken("the hang oracle (Go runtime deadlock report) does not fire in this build")
         runfam.run_and_monitor(check, rn, items, {"C01"}, on_result=on_result)
         check.extra["schedule_points_total"] = len(rn.points)
+        zout = rn.run_cases([c for c, _s in closing], per_case_timeout=90)
+    ended = {"output": 0, "error": 0}
+    for case, shape in closing:
+        o = zout.get(case["id"], {})
+        check.count()
+        if "death" in o:
+            d = o["death"]
+            if d["kind"] == "deadlock":
+                check.report("hang@steps-closed:" + d["key"][len("deadlock@"):][:100], "run never returned although all its steps were stopped or closed (%s): %s" % (shape, d["key"]), {"case": case, "detail": d.get("detail", "")[:3000]})
+            else:
+                check.inconclusive_case(case["id"], "%s %s" % (d["kind"], d["key"]))
+            continue
+        res = o["result"]
+        if res.get("parse_err") or res.get("prepare_err"):
+            check.inconclusive_case(case["id"], (res.get("parse_err") or res.get("prepare_err"))[:100])
+            continue
+        run = (res.get("runs") or [{}])[0]
+        if bool(run.get("out_id")) == bool(run.get("err")):
+            check.report("result@neither-output-nor-error" if not run.get("out_id") else "result@output-and-error", "%s: the run returned output id %r and error %r" % (shape, run.get("out_id"), run.get("err")), {"case": case, "run": run})
+        ended["output" if run.get("out_id") else "error"] += 1
+        check.nontrivial("%s|%s" % (shape.split(" at ")[0], "output" if run.get("out_id") else "error"))
+    check.extra["runs_with_stopped_or_closed_steps"] = ended
     check.extra["distinct_plugin_event_orders"] = len(orders)
     check.extra["cases_with_injected_delays"] = delayed[0]
     if check.evaluations < n // 2:
